@@ -30,6 +30,11 @@ for f in sorted(os.listdir(src)):
             sigs = sorted(set(re.findall(r'signature: (.*)', out.stdout)))
             entry['results'][c] = {'exit': out.returncode, 'detected': out.returncode == 1, 'signatures': sigs[:6]}
             print(f'{pid} m{n} {c}: rc={out.returncode} {len(sigs)} signature(s)')
+            if c == pid and out.returncode != 1 and os.environ.get('SEEDED_THOROUGH', '1') == '1':
+                out = subprocess.run(['/verif/check', c, '--tier', 'thorough'], capture_output=True, text=True, cwd='/verif')
+                sigs = sorted(set(re.findall(r'signature: (.*)', out.stdout)))
+                entry['results'][c + ':thorough'] = {'exit': out.returncode, 'detected': out.returncode == 1, 'signatures': sigs[:6]}
+                print(f'{pid} m{n} {c} thorough: rc={out.returncode} {len(sigs)} signature(s)')
     subprocess.run(['git', '-C', '/repo', 'checkout', '-q', '--', '.'])
     meta['mutations'].append(entry)
 json.dump(meta, open(meta_path, 'w'), indent=1)
